@@ -97,7 +97,7 @@ fn count_words(a: u64, l: usize) -> u64 {
 impl Universe {
     pub fn new(thorough: bool) -> Universe {
         let red: Vec<usize> = ALPHABET.iter().enumerate().filter(|(_, l)| l.reduced).map(|(i, _)| i).collect();
-        let (red_len, full_len) = if thorough { (5, 4) } else { (4, 3) };
+        let (red_len, full_len) = if thorough { (5, 3) } else { (4, 3) };
         let enc = Ts::ALL.iter().map(|t| ALPHABET.iter().map(|l| (l.enc)(*t)).collect()).collect();
         let heads = Ts::ALL
             .iter()
